@@ -74,7 +74,7 @@ def _record(case, path, tid, exc, obs, extra=None):
     r = {"ev": "split", "tid": tid, "path": path, "exc": exc, "hist": ""}
     for k in _CASE_KEYS:
         r[k] = case[k]
-    r["winfo"] = case["method"] in WINFO
+    r["winfo"] = case["winfo"]
     r.update(_tags(case))
     r.update(obs)
     if extra:
@@ -97,7 +97,7 @@ def _summary(rec, rp):
 def observe(case, rng, kind, paths, tid, variant=0, hist="", clear=True):
     """Run one case on one input through the requested paths. -> (split records, agree records)"""
     A = make_input(case, rng, kind)
-    winfo = case["method"] in WINFO
+    winfo = case["winfo"]
     rp = U.renorm_power(case["renorm"], case["mode"])
     rescaled = rp > 0
     recs, seffs = [], {}
@@ -169,7 +169,9 @@ def _seff(L, S, R):
 def _case(method, absorb, dtype, inp, s, m, n, mode="rel", cn=0, cd=1, maxb=0, renorm=0, signs=None):
     signs = signs or [1] * len(s)
     return {"method": method, "absorb": absorb, "dtype": dtype, "inp": inp, "s": list(s), "m": m, "n": n, "mode": mode,
-            "cn": cn, "cd": cd, "maxb": maxb, "renorm": renorm, "signs": list(signs), "neg": any(x < 0 for x in signs)}
+            "cn": cn, "cd": cd, "maxb": maxb, "renorm": renorm, "signs": list(signs), "neg": any(x < 0 for x in signs),
+            # an info dict is optional; without one svd:eig takes its per-form shortcuts
+            "winfo": method in WINFO}
 
 
 GEN_SHAPES = [  # (spectrum, m, n)
@@ -247,6 +249,11 @@ def table_cases(tc, idx, quick, rng):
                     c["cn"], c["cd"] = 1, 1000
                     if method != "lu":
                         c["mode"] = "rsum2"
+            if method in WINFO:
+                if quick:
+                    c["winfo"] = (idx + j) % 2 == 0
+                else:
+                    out.append(dict(c, winfo=False))
             out.append(c)
     return out
 
@@ -342,6 +349,7 @@ def run(ctx):
             case = _case(method, ab, dt, "gen", g["s"], m, n)
         for k in ("mode", "cn", "cd", "maxb", "renorm"):
             case[k] = g[k]
+        case["winfo"] = case["winfo"] and i % 3 != 1
         paths = ["numba", "generic"]
         if i % 4 == 0:
             paths.append("batch")
@@ -371,7 +379,7 @@ def run(ctx):
             cn = int(rng.integers(1, cd))
         if rng.integers(5) == 0:
             cn, cd = 0, 1
-        if not U.off_boundary(s, mode, cn, cd):
+        if not U.off_boundary(s, mode, cn, cd) or U.margin(s, mode, cn, cd) < 0.05:
             continue
         maxb = int(rng.choice([0, 0, 1, 2, 3, 5, 12]))
         renorm = int(rng.choice([0, 0, 1, 2, 3]))
@@ -388,6 +396,7 @@ def run(ctx):
             m, n = ((d, d), (d + int(rng.integers(1, 4)), d), (d, d + int(rng.integers(1, 4))))[int(rng.integers(3))]
             case = _case(method, ab, dt, "gen", s, m, n)
         case.update(mode=mode, cn=cn, cd=cd, maxb=maxb, renorm=renorm)
+        case["winfo"] = case["winfo"] and bool(rng.integers(2))
         tid += 1
         made += 1
         tp = "tensor:tensors" if ab in SINGLE_FORMS else TENSOR_PATHS[int(rng.integers(3))]
